@@ -9,7 +9,8 @@ Definition bech_params : pm_params :=
   {| pm_shift := lit lits_bech32Polymod 1;   (* chk >> 25 *)
      pm_mask  := lit lits_bech32Polymod 2;   (* 0x1ffffff *)
      pm_sym   := lit lits_bech32Polymod 3;   (* << 5 *)
-     pm_gens  := firstn (N.to_nat (lit lits_bech32Polymod 5)) gens |}.  (* for i := 0; i < 5 *)
+     (* for i := 0; i < 5; i++ { if (b>>uint(i))&1 == 1 { chk ^= gen[i] } } *)
+     pm_gens  := combine (map (fun i => 2 ^ N.of_nat i) (seq 0 (N.to_nat (lit lits_bech32Polymod 5)))) gens |}.
 
 Definition polymod (values : list N) : N := pm_fold bech_params (lit lits_bech32Polymod 0) values.
 
